@@ -42,13 +42,14 @@ CHECK_DEADLOCK FALSE
 def stage1(prop, tier, v, cov):
     """Exhaustive TLC on the response-graph library: the design admits no bad state."""
     runs = []
-    safety = [("g1", 2, 2), ("g2", 2, 2), ("g3", 2, 1), ("g4", 1, 3)]
+    safety = [("g1", 2, 2), ("g2", 2, 2), ("g3", 2, 1), ("g4", 1, 3), ("g5", 2, 2), ("g6", 3, 2)]
     if tier == "thorough":
-        safety += [("g1", 1, 3), ("g1", 3, 1), ("g2", 2, 3), ("g3", 2, 2), ("g3", 1, 2), ("g4", 2, 2), ("g4", 3, 2)]
+        safety += [("g1", 1, 3), ("g1", 3, 1), ("g2", 2, 3), ("g3", 2, 2), ("g3", 1, 2), ("g4", 2, 2), ("g4", 3, 2),
+                   ("g5", 1, 3), ("g5", 3, 2), ("g6", 3, 3), ("g6", 2, 3)]
     for g, k, a in safety:
         runs.append(("safety %s K=%d Alpha=%d" % (g, k, a), mc_cfg(g, k, a), None))
     if prop in ("C03", "C04"):
-        live = [("g1", 2, 2)] if tier == "quick" else [("g1", 2, 2), ("g3", 2, 2), ("g4", 1, 3)]
+        live = [("g1", 2, 2)] if tier == "quick" else [("g1", 2, 2), ("g3", 2, 2), ("g4", 1, 3), ("g5", 2, 2)]
         for g, k, a in live:
             if prop == "C03":
                 runs.append(("liveness Terminates %s" % g, mc_cfg(g, k, a, "FairSpecNoStop", "Terminates", ""), None))
